@@ -24,7 +24,7 @@ EXPLANATION = (
     'empty key and the key itself and nothing else; (R3) exclusive end bounds of variable-length key prefixes are computed '
     'by a successor that can shorten, increment_by_one / prefix_successor evaluated on concrete byte strings (trailing '
     '0xFF runs, all-0xFF, empty); (R4) prefix-removal bounds derive from the namespace/author/key of the entry inserted; '
-    '(R5) no store mutation precedes a NotInserted return. (R6) the store-actor handlers of InsertLocal / DeletePrefix / InsertRemote evaluated (K14b): every offered entry reaches the replica, the removed-count of a deletion is what is answered. NOT decided: commutativity/idempotence over all permutations as '
+    '(R5) no store mutation precedes a NotInserted return. (R6) the store-actor handlers of InsertLocal / DeletePrefix / InsertRemote evaluated (K14b): every offered entry reaches the replica, the removed-count of a deletion is what is answered. (R7) = C06.R4 failing-body rows. NOT decided: commutativity/idempotence over all permutations as '
     'such (value-level).'
 )
 ASSUMPTIONS = [
@@ -834,6 +834,13 @@ def r6(ctx):
     actorfw.claim(ctx, "C02.R6", handlers=("InsertLocal", "DeletePrefix", "InsertRemote"), floor=10)
 
 
+def r7(ctx):
+    """"a rejected (superseded) entry changes nothing" - nor does a request that fails for another reason take earlier accepted
+    entries with it: the shared write transaction survives a failing body (the failing-body rows of C06.R4)"""
+    from . import C06
+    C06.share_failing_body(ctx, "C02.R7")
+
+
 def run(ctx):
     ctx.run_rule("C02.R1", r1)
     ctx.run_rule("C02.R2", r2)
@@ -841,3 +848,4 @@ def run(ctx):
     ctx.run_rule("C02.R4", r4)
     ctx.run_rule("C02.R5", r5)
     ctx.run_rule("C02.R6", r6)
+    ctx.run_rule("C02.R7", r7)
